@@ -8,7 +8,7 @@ From Coq Require Import Permutation.
 From PSA Require Import model.Bytes model.Dhcp model.Clients model.Ipdb spec.SpecTable model.Server model.Config spec.SpecConfig
   proofs.ConfigProofs.
 From PSA Require Import spec.Monitors.
-From PSA Require Import spec.WireHyps spec.WireExample proofs.WireProofs proofs.WireInv proofs.WireLease proofs.WireSnap proofs.WireHypsProofs proofs.WireExampleProofs.
+From PSA Require Import spec.WireHyps spec.WireExample proofs.WireProofs proofs.WireInv proofs.WireLease proofs.WireSnap proofs.WireHypsProofs proofs.WireExampleProofs spec.WireExample3 proofs.WireExample3Proofs.
 From PSA Require Import proofs.WireConfig.
 Open Scope N_scope.
 
@@ -91,6 +91,15 @@ Theorem C07_wire_nonvacuous : exists c h, wire_example = Some (c, h) /\ wire_pre
   length h = 6%nat /\ length (events c h) = 2%nat /\ length (flat_map r_outs h) = 3%nat.
 Proof. exact wire_example_full. Qed.
 Print Assumptions C07_wire_nonvacuous.
+
+(* the premises of the wire theorem are met by a recorded history of a client with a reserved address and settings of its own
+   (spec/WireExample3.v) *)
+Theorem C07_wire_nonvacuous_reservation : exists c h, wire_example3 = Some (c, h) /\ wire_premises c h /\ accepted c h /\
+  length h = 4%nat /\ length (events c h) = 4%nat /\
+  exists mac ip os, c_statics c = [(mac, ip)] /\ Forall (fun e => le_ip e = ip /\ le_mac e = mac) (events c h) /\
+                    assoc mac (c_opts c) = Some os /\ os <> c_default_opts c.
+Proof. exact wire_example3_full. Qed.
+Print Assumptions C07_wire_nonvacuous_reservation.
 
 Example C07_nonvacuous :
   let mac1 := [170; 187; 204; 221; 238; 255] in let mac2 := [170; 187; 204; 221; 238; 1] in let other := [6; 0; 0; 0; 0; 9] in
